@@ -1397,6 +1397,9 @@ func ParseClientResponse(form Form, status int, h http.Header, body []byte, trai
 				// net/http repeats a declared trailer key that is also present as a header;
 				// an identical repetition is one disposition, not two.
 				r.EndSeen, r.End = 1, trEnd
+				if len(trEnd.Details) == 0 {
+					r.End = headEnd // (only announced keys are repeated; details travel in the headers)
+				}
 			case headHas && trHas:
 				cs.add("resp.multiple-ends", "grpc-status in both headers (%d) and trailers (%d)", headEnd.Code, trEnd.Code)
 				r.EndSeen = 2
